@@ -574,7 +574,8 @@ class ConformationContainer:
         """
         self.top_up_from_atoms(other.atoms)
 
-    def top_up_from_atoms(self, other_atoms: Iterable["Atom"]):
+    def top_up_from_atoms(self, other_atoms: Iterable["Atom"],
+                          shared_sites=()):
         """Adds atoms which are missing from this container.
 
         Args:
@@ -584,8 +585,9 @@ class ConformationContainer:
         res_names = {(a.chain_id, a.res_num): a.res_name for a in self.atoms}
         for atom in other_atoms:
             if atom.residue_label not in my_residue_labels:
-                if res_names.setdefault((atom.chain_id, atom.res_num),
-                                        atom.res_name) != atom.res_name:
+                site = (atom.chain_id, atom.res_num)
+                if site not in shared_sites and res_names.setdefault(
+                        site, atom.res_name) != atom.res_name:
                     # don't merge different residue types, e.g. alt-loc mutant
                     continue
                 self.copy_atom(atom)
